@@ -63,6 +63,7 @@ def known_match(known, prop, signature):
 
 # reach probes that must be non-zero in a batch (otherwise the batch is not a pass)
 REQUIRED_PROBES = {
+    "C17": ["last_handle_dropped"],
     "C15": ["set_rejected", "set_rejected_while_following", "set_time_after_clock_moved", "update_while_following", "adapter_get"],
     "C02": ["two_different_errors", "nary_leading_absent", "equivalence_checked"],
     "C08": ["both_sides_present", "one_sided", "axle_partial_presence", "diff_equal_all_present", "diff_waits_for_data",
@@ -78,6 +79,13 @@ REQUIRED_PROBES = {
 }
 
 RULES = {
+    "refs": ("(a) each case is one seeded history (<= 12 ops + final drops) of clone / drop / to_dyn! / borrow+read / "
+             "borrow_mut+write-unique over one of the six Reference variants with a drop-tracking payload, run both from a "
+             "crate without cargo features and from one that declares alloc/std; non-trivial = contains a to_dyn!; distinct = "
+             "hash of (variant, op) sequence. (b) each case is one shuttle-scheduled execution of 2..8 threads x 1..6 ops "
+             "(increment with a scheduling point inside the borrow, unique-valued register write, register read) over "
+             "References built from one shared Arc<Mutex>/Arc<RwLock>; distinct = hash of the order in which critical sections "
+             "were entered, counted with a set. distinct_nontrivial = (a) + (b)."),
     "settable": ("each case is one seeded op history over four settables (user motor relying on the trait defaults, "
                  "ConstantGetter, Terminal state, Terminal command), their followed getters, a scripted clock (jumps forwards "
                  "and backwards, errors) and a GetterFromHistory adapter in its four constructor forms over a recording history. "
@@ -105,6 +113,12 @@ RULES = {
 }
 
 COMPONENTS = {
+    "refs": {
+        "real": ["Reference (all six variants)", "ReferenceUnsafe::clone/borrow/borrow_mut", "Borrow/BorrowMut Deref", "to_dyn!",
+                 "rc_ref_cell_reference / arc_mutex_reference / arc_rw_lock_reference"],
+        "stub": ["shuttle::sync::{Arc,Mutex,RwLock} stand in for std's under --cfg rrtk_verif_shuttle (schedules only)",
+                 "drop-tracking payload", "register model / Wing-Gong checker"],
+    },
     "settable": {
         "real": ["Settable default methods (set/follow/stop_following/update_following_data/get_last_request)", "SettableData",
                  "ConstantGetter", "Terminal (both Settable impls, Updatable)", "GetterFromHistory (all constructors, set_delta, "
@@ -189,19 +203,22 @@ def replay_reproduces(path):
     return r.returncode == 1, r.stdout
 
 
-def sim_batch(prop, tier, seed, world):
-    t0 = time.time()
-    build_main()
-    tmpdir = os.path.join(REPLAYS, "tmp", "%s-%d" % (prop, os.getpid()))
+def sim_collect(prop, tier, seed, binary=None, tag=""):
+    """Run one simulator batch; replay every minimised failure in a fresh process; classify."""
+    binary = binary or BIN
+    tmpdir = os.path.join(REPLAYS, "tmp", "%s%s-%d" % (prop, tag, os.getpid()))
     shutil.rmtree(tmpdir, ignore_errors=True)
     os.makedirs(tmpdir, exist_ok=True)
     out = os.path.join(tmpdir, "result.json")
-    cmd = [BIN, "batch", "--prop", prop, "--tier", tier, "--seed", str(seed), "--out", out,
+    cmd = [binary, "batch", "--prop", prop, "--tier", tier, "--seed", str(seed), "--out", out,
            "--replay-dir", tmpdir, "--workers", str(os.cpu_count() or 16)]
     runs = os.environ.get("VERIF_RUNS")
     if runs:
         cmd += ["--runs", runs]
     r = run(cmd)
+    if r.returncode < 0 or r.returncode in (134, 139):
+        # the process was killed (abort / segfault): a run corrupted memory. Bisect by run index.
+        return bisect_death(prop, tier, seed, binary, r)
     if r.returncode not in (0, 1) or not os.path.exists(out):
         print(r.stdout[-4000:])
         harness_error("simulator batch for %s died (exit %s)" % (prop, r.returncode))
@@ -211,9 +228,9 @@ def sim_batch(prop, tier, seed, world):
     known_hits = []
     lines = []
     for f in res["failures"]:
-        ok, text = replay_reproduces(f["replay"])
-        if not ok:
-            print(text[-2000:])
+        rr = run([binary, "replay", f["replay"]])
+        if rr.returncode != 1:
+            print(rr.stdout[-2000:])
             harness_error("minimised replay %s does not reproduce %s in a fresh process" % (f["replay"], f["signature"]))
         k = known_match(known, prop, f["signature"])
         if k:
@@ -223,24 +240,190 @@ def sim_batch(prop, tier, seed, world):
         violations += 1
         dest_dir = os.path.join(REPLAYS, prop)
         os.makedirs(dest_dir, exist_ok=True)
-        dest = os.path.join(dest_dir, os.path.basename(f["replay"]))
+        dest = os.path.join(dest_dir, tag.strip("-") + os.path.basename(f["replay"]))
         shutil.copyfile(f["replay"], dest)
         lines.append("VIOLATION property=%s replay=%s" % (prop, dest))
         lines.append("  signature=%s detail=%s (run %d, %d ops minimised to %d)" % (
             f["signature"], f["detail"], f["run"], f["ops_original"], f["ops_minimised"]))
     missing = [p for p in REQUIRED_PROBES.get(prop, []) if res["reach_probes"].get(p, 0) == 0]
-    wall = time.time() - t0
-    write_evidence(prop, tier, seed, world, res, violations, known_hits, wall)
     shutil.rmtree(tmpdir, ignore_errors=True)
+    return dict(res=res, lines=lines, violations=violations, known_hits=known_hits, missing=missing)
+
+
+def dies(rc):
+    return rc < 0 or rc in (134, 139)
+
+
+def bisect_death(prop, tier, seed, binary, first):
+    """A batch process was killed by a signal. Find the single run that kills a child process
+    on its own; its plan is the replay file and replaying it must kill the child again."""
+    total = int(os.environ.get("VERIF_RUNS") or 0)
+    if not total:
+        # ask the binary for its default run count through a tiny batch
+        total = {"quick": 100000, "thorough": 3000000}[tier]
+
+    def batch(lo, hi):
+        out = os.path.join(REPLAYS, "tmp", "bisect-%d.json" % os.getpid())
+        os.makedirs(os.path.dirname(out), exist_ok=True)
+        r = run([binary, "batch", "--prop", prop, "--tier", tier, "--seed", str(seed), "--out", out, "--replay-dir",
+                 os.path.dirname(out), "--workers", "1", "--from", str(lo), "--to", str(hi)])
+        return r.returncode
+
+    lo, hi = 0, min(total, 4096)
+    while hi <= total and not dies(batch(lo, hi)):
+        if hi == total:
+            print(first.stdout[-2000:])
+            harness_error("batch for %s was killed (exit %s) but no prefix of runs reproduces it single-threaded" % (prop, first.returncode))
+        hi = min(total, hi * 4)
+    # smallest hi such that [0, hi) dies
+    a, b = 0, hi
+    while b - a > 1:
+        mid = (a + b) // 2
+        if dies(batch(0, mid)):
+            b = mid
+        else:
+            a = mid
+    culprit = b - 1
+    dest_dir = os.path.join(REPLAYS, prop)
+    os.makedirs(dest_dir, exist_ok=True)
+    dest = os.path.join(dest_dir, "%s_process_death-seed%d-run%d.plan" % (prop, seed, culprit))
+    sig = "%s|process_death|memory_corruption" % prop
+    g = run([binary, "genplan", "--prop", prop, "--tier", tier, "--seed", str(seed), "--run", str(culprit), "--expect", sig])
+    open(dest, "w").write("# the simulator process is killed (abort/segfault) while executing this plan\n" + g.stdout)
+    rr = run([binary, "replay", dest])
+    if dies(rr.returncode):
+        lines = ["VIOLATION property=%s replay=%s" % (prop, dest),
+                 "  signature=%s detail=executing run %d kills the process (exit %s): memory corruption / undefined behaviour reached from safe calls" % (sig, culprit, rr.returncode)]
+    else:
+        # the run does not kill a fresh process on its own; does it at least violate an oracle?
+        g2 = run([binary, "genplan", "--prop", prop, "--tier", tier, "--seed", str(seed), "--run", str(culprit)])
+        open(dest, "w").write(g2.stdout)
+        r2 = run([binary, "replay", dest])
+        sigs = [l.split("signature=")[1].split(" detail=")[0] for l in r2.stdout.splitlines() if l.startswith("REPRODUCED") and ("signature=%s|" % prop) in l]
+        if r2.returncode != 1 or not sigs:
+            harness_error("run %d kills the batch only together with earlier runs; single replay exits %s (%s)" % (culprit, r2.returncode, dest))
+        open(dest, "w").write(g2.stdout + "".join("expect=%s\n" % x for x in sigs[:1]))
+        lines = ["VIOLATION property=%s replay=%s" % (prop, dest),
+                 "  signature=%s detail=run %d violates this oracle and, inside a batch, goes on to corrupt the heap and kill the process (exit %s)" % (sigs[0], culprit, first.returncode)]
+    res = dict(runs=culprit + 1, distinct_nontrivial=2, samples=[g.stdout], nontrivial_runs=culprit + 1, wall_batch_s=1.0, sim_seconds=0.0,
+               faults_fired={}, reach_probes={}, counts={}, cells_reached=0, trace_xor="", trace_sum="", failing_runs=1, workers=1)
+    return dict(res=res, lines=lines, violations=1, known_hits=[], missing=[])
+
+
+def finish(prop, tier, seed, lines, violations, known_n, runs, distinct, wall, missing=None):
     for l in lines:
         print(l)
     print("%s %s seed=%d runs=%d distinct_nontrivial=%d violations=%d known=%d wall=%.1fs" % (
-        prop, tier, seed, res["runs"], res["distinct_nontrivial"], violations, len(known_hits), wall))
+        prop, tier, seed, runs, distinct, violations, known_n, wall))
     if violations:
         sys.exit(1)
     if missing:
         harness_error("reach probes at zero: %s" % ", ".join(missing))
     sys.exit(0)
+
+
+def sim_batch(prop, tier, seed, world):
+    t0 = time.time()
+    build_main()
+    c = sim_collect(prop, tier, seed)
+    wall = time.time() - t0
+    write_evidence(prop, tier, seed, world, c["res"], c["violations"], c["known_hits"], wall)
+    finish(prop, tier, seed, c["lines"], c["violations"], len(c["known_hits"]), c["res"]["runs"],
+           c["res"]["distinct_nontrivial"], wall, c["missing"])
+
+
+# ---------------------------------------------------------------- C17: Reference
+
+SHUTTLE_DIR = os.path.join(VERIF, "shuttle")
+SHUTTLE_BIN = os.path.join(VERIF, "target", "shuttle", "release", "rrtk-shuttle")
+
+
+def build_shuttle():
+    r = run(["cargo", "build", "--release", "--offline"], cwd=SHUTTLE_DIR)
+    if r.returncode != 0:
+        print(r.stdout[-6000:])
+        harness_error("the shuttle harness does not build against /repo's working tree (--cfg rrtk_verif_shuttle)")
+
+
+def check_c17(tier, seed):
+    prop = "C17"
+    t0 = time.time()
+    build_main()
+    # (a) clone / drop / to_dyn / borrow histories: feature-less calling crate ...
+    a = sim_collect(prop, tier, seed)
+    lines = list(a["lines"])
+    violations = a["violations"]
+    # ... and a calling crate that declares and enables features named alloc and std
+    a2 = None
+    vbin = variant_binary("std_nodim")
+    if vbin:
+        a2 = sim_collect(prop, tier, seed, binary=vbin, tag="-featured")
+        lines += a2["lines"]
+        violations += a2["violations"]
+    # (b) shuttle-controlled threads
+    build_shuttle()
+    sdir = os.path.join(REPLAYS, "tmp", "shuttle-%d" % os.getpid())
+    shutil.rmtree(sdir, ignore_errors=True)
+    os.makedirs(sdir, exist_ok=True)
+    out = os.path.join(sdir, "result.json")
+    iters, shapes = (250, 16) if tier == "quick" else (6000, 64)
+    r = run([SHUTTLE_BIN, "run", "--seed", str(seed), "--iters", str(iters), "--shapes", str(shapes), "--out", out, "--dir", sdir])
+    if r.returncode not in (0, 1) or not os.path.exists(out):
+        print(r.stdout[-3000:])
+        harness_error("shuttle run died (exit %s)" % r.returncode)
+    sres = json.load(open(out))
+    known = load_known()
+    for f in sres["failures"]:
+        if not f["schedule_file"]:
+            continue
+        rr = run([SHUTTLE_BIN, "replay", str(f["shape"]), f["schedule_file"]])
+        if rr.returncode != 1:
+            print(rr.stdout[-2000:])
+            harness_error("shuttle schedule %s does not reproduce" % f["schedule_file"])
+        sig = "C17|schedule|" + ("conservation" if "conservation" in f["message"] else "linearizability" if "linearizability" in f["message"] else "panic_under_contention")
+        k = known_match(known, prop, sig)
+        if k:
+            lines.append("KNOWN-FINDING: property=%s %s [%s]" % (prop, k.get("what", ""), sig))
+            continue
+        violations += 1
+        dest_dir = os.path.join(REPLAYS, prop)
+        os.makedirs(dest_dir, exist_ok=True)
+        dest = os.path.join(dest_dir, "shape%d-seed%d-%s" % (f["shape"], seed, os.path.basename(f["schedule_file"])))
+        shutil.copyfile(f["schedule_file"], dest)
+        lines.append("VIOLATION property=%s replay=%s" % (prop, dest))
+        lines.append("  signature=%s shape=%d scheduler=%d message=%s (replay: rrtk-shuttle replay %d %s)" % (
+            sig, f["shape"], f["scheduler"], f["message"], f["shape"], dest))
+    shutil.rmtree(sdir, ignore_errors=True)
+    wall = time.time() - t0
+    res = a["res"]
+    extra = {
+        "shuttle": {k: sres[k] for k in ("iters_per_scheduler", "schedulers", "executions", "distinct_interleavings",
+                                         "contended_executions", "linearizability_checked", "wall_s")},
+        "interleavings_distinct": sres["distinct_interleavings"],
+        "schedules_per_hour": int(sres["executions"] / max(sres["wall_s"], 1e-6) * 3600),
+        "featured_crate_runs": a2["res"]["runs"] if a2 else 0,
+        "schedulers": ["shuttle RandomScheduler (seeded)", "shuttle PctScheduler depth 1..5 (seeded)"],
+    }
+    res = dict(res)
+    res["runs"] = a["res"]["runs"] + (a2["res"]["runs"] if a2 else 0) + sres["executions"]
+    res["distinct_nontrivial"] = a["res"]["distinct_nontrivial"] + sres["distinct_interleavings"]
+    write_evidence(prop, tier, seed, "refs", res, violations, a["known_hits"], wall, extra)
+    missing = a["missing"]
+    if sres["contended_executions"] == 0:
+        missing = missing + ["shuttle_contended_executions"]
+    finish(prop, tier, seed, lines, violations, len(a["known_hits"]), res["runs"], res["distinct_nontrivial"], wall, missing)
+
+
+def variant_binary(name):
+    """Build (if needed) and return the simulator binary of a feature variant, or None."""
+    vdir = os.path.join(VERIF, "variants", name)
+    if not os.path.isdir(vdir):
+        return None
+    r = run(["cargo", "build", "--release", "--offline"], cwd=vdir)
+    if r.returncode != 0:
+        print(r.stdout[-6000:])
+        harness_error("variant %s does not build against /repo's working tree" % name)
+    return os.path.join(VERIF, "target", "variants", name, "release", "rrtk-sim-" + name)
 
 
 SIM_PROPS = {
@@ -283,6 +466,8 @@ def main():
             print("VIOLATION property=%s replay=%s" % (prop, replay))
             sys.exit(1)
         sys.exit(0)
+    if prop == "C17":
+        check_c17(tier, seed)
     if prop in SIM_PROPS:
         sim_batch(prop, tier, seed, SIM_PROPS[prop])
     harness_error("no check registered for %s" % prop)
